@@ -92,6 +92,7 @@ func Reset(seed uint64) {
 	resetMapStats()
 	resetPoolStats()
 	resetSchedStats()
+	ResetChannels()
 }
 
 // SetBudget sets the soft and hard step budgets of the current run.
